@@ -14,6 +14,7 @@ The rules scan these lists (typestate, ordering, must-pass-through on every path
 from symex import Domain, Exec, Lin, Enum, Unknown, Record, Ref, Closure, Sym, State, as_lin
 from facts import Node, strip_targs
 
+INTEGRAL = {'int', 'unsigned int', 'long', 'unsigned long', 'long long', 'unsigned long long', 'short', 'unsigned short', 'char', 'unsigned char', 'signed char'}
 MUTEX_GUARDS = ('std::unique_lock', 'std::scoped_lock', 'std::lock_guard')
 RW_GUARDS = {'tulz::rwp::ReadLock': 'R', 'tulz::rwp::WriteLock': 'W'}
 
@@ -96,6 +97,8 @@ class EvDomain(Domain):
     def init_field(self, path, node):
         v = self.field_value(path, node)
         if v is not None: return v
+        ty = (node.d.get('ftype') or node.d.get('type') or '') if node is not None else ''
+        if ty in INTEGRAL: return Lin.sym(str(path[-1]))
         return Sym('field:' + '.'.join(map(str, path[-2:])))
 
     def init_param(self, fn, p):
@@ -150,7 +153,8 @@ class EvDomain(Domain):
         if n.virtual and not n.qualified:
             ov = ex._rvalue(obj, st, fr) if obj is not None else None
             self.ev(st, Ev('run' if base == 'run' else 'vcall', n, name=q, obj=on, val=ov, args=vals), fr)
-            return Sym(f'vcall:{base}@{n.line}')
+            r = self.vcall_result(ex, n, q, base, on, ov, vals, st, fr)
+            return r if r is not None else Sym(f'vcall:{base}@{n.line}')
         if q.startswith('std::condition_variable'):
             kind = 'wait' if base.startswith('wait') else base
             self.ev(st, Ev(kind, n, name=q, obj=on, args=vals, val=next((v for v in vals if isinstance(v, Closure)), None)), fr)
@@ -169,6 +173,9 @@ class EvDomain(Domain):
         e = self.ev(st, Ev('call', n, name=q, obj=on, val=ov, args=vals), fr)
         r = self.call_result(ex, n, q, base, on, ov, vals, st, fr)
         return r
+
+    def vcall_result(self, ex, n, q, base, on, ov, vals, st, fr):
+        return None
 
     def sync_closures(self, ex, n, st, fr):
         q = n.calleeq or ''
@@ -262,6 +269,8 @@ def _flatten(path):
             e = Ev('return', node, val=payload)
         elif k == 'throw':
             e = Ev('throw', node)
+        elif k == 'branch':
+            e = Ev('branch', node, val=payload[0], name=payload[1]); e.fn = payload[2]
         elif k in ('enter', 'leave'):
             e = Ev(k, node, name=payload)
         elif k == 'callee-throw':
